@@ -389,8 +389,22 @@ def correspond(res, rng, tier):
       stats["names"] += 1
       stats["rel"][rel] += 1
       if semsub != "1":
+        # The model's bound treats every occurrence of a condition as independent, so it is not always tight.  A
+        # narrower reported type is a disagreement only when the property really fails: some truth assignment of
+        # the opaque conditions makes CPython compute a value the reported type excludes.
+        witness = None
+        for th in all_thresholds(p):
+          bad = oracle_failures(p, types, th)
+          if bad:
+            witness = (th, bad)
+            break
+        if witness is None:
+          stats["narrower_than_model_bound_but_sound_on_every_run"] = \
+              stats.get("narrower_than_model_bound_but_sound_on_every_run", 0) + 1
+          continue
         disagreements.append({"kind": "pytype-narrower-than-sound-lower-bound", "src": program_src(p), "name": name,
-                              "pytype": types[name], "model_sem": ms, "model_rules": mt, "prog": p})
+                              "pytype": types[name], "model_sem": ms, "model_rules": mt, "prog": p,
+                              "failing_run": program_src(p, witness[0]), "not_admitted": witness[1]})
   # ---- stream 2 (exploration beyond the theorem's fragment; the property's own oracle, applied directly) ----
   fam = c01x.truthiness_family() + c01x.narrowing_family()   # deterministic families, always in full
   xpool = [x for b in xb for x in pool_x(b)]
